@@ -15,7 +15,8 @@ ASSUMPTIONS = [
 OUT_OF_REACH = [
     'two threads both inside the locked region (excluded by the lock, whose correctness is assumed); reentrancy of free() from a '
     'GC finalizer (the try-lock / pending-list protocol; the seeded change C14-a swaps the Lock for an RLock): a property of '
-    'interleavings, not of one call',
+    'interleavings, not of one call.  Within reach and done (variant reentrant): the flush of the pending list with a finalizer '
+    'giving one more block back during each call of _free -- as a counting abstraction, one thread',
 ]
 TRUSTED = []
 
